@@ -33,6 +33,11 @@ definitional_bad = False
 for f in sorted(glob.glob(os.path.join(V, "units", "U*", "unit.json"))):
     u = json.load(open(f)); un = f.split("/")[-2]
     for it in u["items"] + sum(u.get("items_if", {}).values(), []):
+        if it["kind"] == "closure":
+            # a hoisted closure used by contract in another unit: same anchor (fn, call, nth, arg), named by `as_fn`
+            key = ("closure:" + it.get("ident", ""), "%s#%s#%s" % (it.get("call"), it.get("nth", 0), it.get("arg", 0)))
+            name = it.get("as_fn") or it.get("name")
+            (users if it.get("contract_only") else owners)[key].append((un, name))
         if it["kind"] in ("fn", "impl_fn", "impl"):
             key = (it.get("impl_self", ""), it.get("ident", it.get("name")))
             name = it.get("marker_name") or it.get("rename_fn") or it.get("ident")
